@@ -109,6 +109,38 @@ def obligations(tier, seed):
                           f"{mt}: options {grp} hold any representable values while the others hold seeded values: every option reads back its own value after save/load, "
                           f"the options record (CHNM {chnm}) covers byte {maxbyte} and REF-DEC finds every option at its YAML byte/bit (inverted ones complemented)",
                           group="pack", shape=f"Synth({mt}); symbolic group {grp}", symbolic="every representable value of each option of the group", timeout=240))
+        # options changed on a LOADED module (its options record carried other values): the new values are what gets saved
+        names_all = [o["name"] for o in sp["options"] if o["name"] != "user_defined_controllers"]
+        for gi in range(0, len(names_all), 4):
+            grp = names_all[gi:gi + 4]
+            first, params, second = [], [], []
+            for o in sp["options"]:
+                n = o["name"]
+                if n == "user_defined_controllers":
+                    continue
+                # loaded state: every bit set (booleans True, multi-bit all ones) / or seeded
+                v1 = (True if o["size"] == 1 else 2 ** o["size"] - 1) if rnd.random() < 0.7 else (rnd.choice([True, False]) if o["size"] == 1 else rnd.randint(0, 2 ** o["size"] - 1))
+                first.append(f"src.{n} = {v1!r}")
+                if n in grp:
+                    params.append(B("o_" + n) if o["size"] == 1 else R("o_" + n, 0, 2 ** o["size"] - 1))
+                    second.append(f"mod.{n} = o_{n}")
+            c1 = "\n".join("    " + l for l in first)
+            c2 = "\n".join("    " + l for l in second)
+            names = [o["name"] for o in sp["options"]]
+            exp = "\n".join(f"    e_{n} = mod.{n}" for n in names)
+            cmpm = " and ".join(f"m2.{n} == e_{n}" for n in names)
+            body = f"""
+    src = {cls_expr(mt)}()
+{c1}
+    mod = rt(Synth(src)).module
+{c2}
+{exp}
+    m2 = rt(Synth(mod)).module
+    m3 = mod.clone()
+    return {cmpm} and {cmpm.replace('m2.', 'm3.')}
+"""
+            obs.append(Ob(f"reload.{mt}.g{gi // 4}", build(params, body, setup=SETUP), f"{mt}: options {grp} changed on a module that was loaded from a file (record with other bits set): save/load and clone() show the new values, the others keep theirs",
+                          group="reload", shape=f"Synth({mt}) saved with mostly-set option bits, loaded, options {grp} assigned", symbolic="every representable value of each option of the group", timeout=300))
         # setter semantics on the object itself: read-back, inversion, exclusivity
         for o in sp["options"]:
             n = o["name"]
